@@ -46,6 +46,7 @@ pub fn run_hostile(a: &Args) {
         let mut threads = vec![ThreadSpec { kind: Kind::Block, sp_off: *rng.pick(&[0u32, 8, 4088, 4095, 2047]), pages: 2, name: Some(b"h0".to_vec()), at: None }];
         let mut lines: Vec<String> = vec!["anon 3 rwx 1".into(), "anon 300 --- 0".into(), "anon 2 rw- 1".into()];
         let mut k2: Option<RootFile> = None;
+        let mut dev_files: Vec<String> = Vec::new(); let mut dev_fifo: Option<String> = None;
         match kind {
             1 => { // threads whose stack pointer has unusual values
                 for addr in [0x7fff_ffff_e000u64 - 8, 0x10000, 0x7_0000_0000 + rng.below(4096)] { if rng.chance(2, 3) { threads.push(ThreadSpec { kind: Kind::Block, sp_off: 0, pages: 2, name: Some(b"odd".to_vec()), at: Some(addr) }); } }
@@ -66,6 +67,15 @@ pub fn run_hostile(a: &Args) {
                 let p = "/SYSVab".to_string();
                 if std::fs::write(&p, vec![0u8; 4096]).is_ok() { k2 = Some(RootFile(p.clone())); let hex: String = p.bytes().map(|b| format!("{b:02x}")).collect(); lines.push(format!("filex {hex} 0 1 r--")); }
             }
+            0 => { // mapped files under /dev: a well-formed library with a build id and no SONAME (the name lookup would
+                   // want the file), and a FIFO named by a caller-supplied mapping (opening it blocks for ever)
+                let p = format!("/dev/shm/mdw-c02-{}-{case}.so", std::process::id());
+                let img = synth_so(&(0..64).map(|_| rng.next() as u8).collect::<Vec<u8>>(), Some(&[9u8; 20]), None);
+                if std::fs::write(&p, &img).is_ok() { let hex: String = p.bytes().map(|b| format!("{b:02x}")).collect(); lines.push(format!("filex {hex} 0 1 r-x")); dev_files.push(p); }
+                let f = format!("/dev/shm/mdw-c02-fifo-{}-{case}", std::process::id());
+                let cf = std::ffi::CString::new(f.clone()).unwrap();
+                if unsafe { libc::mkfifo(cf.as_ptr(), 0o600) } == 0 { dev_fifo = Some(f.clone()); dev_files.push(f); }
+            }
             _ => {}
         }
         let scen = Scenario { threads, lines };
@@ -80,6 +90,9 @@ pub fn run_hostile(a: &Args) {
         let direct = match kind { 3 => Some(DirectAuxvDumpInfo { program_header_count: *rng.pick(&[2u64, 0, 1, 100000, u64::MAX, u64::MAX / 56 + 1]), program_header_address: *rng.pick(&[chain, chain + 1, chain + 8192 - 40, 0x10, u64::MAX - 8]), linux_gate_address: *rng.pick(&[0u64, 1, u64::MAX]), entry_address: *rng.pick(&[0u64, u64::MAX, anon0]) }),
                                   4 => Some(DirectAuxvDumpInfo { program_header_count: rng.next(), program_header_address: rng.next(), linux_gate_address: rng.next(), entry_address: rng.next() }), _ => None };
         let desc = format!("kind {kind} crash {use_crash} sp {sp:x} ip {ip:x} limit {limit} sanitize {sanitize} skip {skip} direct {direct:?}");
+        let ino = unsafe { libc::inotify_init1(libc::IN_NONBLOCK) };
+        for p in &dev_files { let c = std::ffi::CString::new(p.clone()).unwrap(); unsafe { libc::inotify_add_watch(ino, c.as_ptr(), libc::IN_OPEN | libc::IN_ACCESS); } }
+        let fifo2 = dev_fifo.clone();
         let (pid, d2) = (target.pid, direct.clone());
         let mut crash_rng = Rng::new(rng.next());
         let r = run_forked(8000, move || {
@@ -88,6 +101,11 @@ pub fn run_hostile(a: &Args) {
             if limit { w.set_minidump_size_limit(1); } if sanitize { w.sanitize_stack(); }
             if skip { w.skip_stacks_if_mapping_unreferenced(); w.set_principal_mapping_address(ip as usize); }
             if let Some(d) = d2 { w.set_direct_auxv_dump_info(d); }
+            if let Some(f) = &fifo2 {
+                use minidump_writer::maps_reader::{MappingEntry, MappingInfo, SystemMappingInfo};
+                w.set_user_mapping_list(vec![MappingEntry { mapping: MappingInfo { start_address: 0x1000_0000, size: 0x1000, system_mapping_info: SystemMappingInfo { start_address: 0x1000_0000, end_address: 0x1000_1000 }, offset: 0,
+                    permissions: procfs_core::process::MMPermissions::READ | procfs_core::process::MMPermissions::EXECUTE, name: Some(f.into()) }, identifier: vec![1, 2, 3, 4, 5, 6, 7, 8, 9, 10, 11, 12, 13, 14, 15, 16] }]);
+            }
             let mut dest = std::io::Cursor::new(Vec::new());
             match quiet_catch(std::panic::AssertUnwindSafe(|| w.dump(&mut dest).map(|_| ()).map_err(|e| format!("{e:?}")))) {
                 Ok(Ok(())) => "OK".into(), Ok(Err(e)) => format!("ERR {}", e.replace('\n', " ").chars().take(200).collect::<String>()), Err(p) => format!("PANIC {p}") }
@@ -103,6 +121,15 @@ pub fn run_hostile(a: &Args) {
                    Err(e) => { res.0 = format!("!dump did not return: {e} [{desc}]"); out.count("outcome.watchdog"); } }
         out.count(&format!("world.kind{kind}"));
         out.case(l.s(), res.s(), true);
+        // mapped files under /dev were never opened
+        if !dev_files.is_empty() {
+            let mut evbuf = [0u8; 4096]; let nread = unsafe { libc::read(ino, evbuf.as_mut_ptr() as *mut libc::c_void, evbuf.len()) };
+            let mut l = Line::new("const"); l.u(case).u(1); let mut r2 = Line::bare();
+            if nread > 0 { r2.0 = format!("!the writer opened a mapped file under /dev ({dev_files:?}) [{desc}]"); } else { r2.u(case).u(1); }
+            out.case(l.s(), r2.s(), true); out.count("dev.files_watched");
+        }
+        unsafe { libc::close(ino); }
+        for p in &dev_files { let _ = std::fs::remove_file(p); }
     }
     out.assumptions.push("bounded time is observed with an 8 s watchdog around each dump (run in a forked child); panics inside dependencies count as panics of the dump".into());
     out.finish(&a.out, "hostile worlds, each dumped in a forked child under a watchdog: crash-context stack/instruction pointers at 2^64-8, 0, inside a 300-page permissionless region, at mapping ends, random, in [vsyscall]; threads with stack pointers at odd addresses and null-SP helpers; executable mappings of corrupted ELF images with version-like / non-ASCII names; synthetic linker chains (cyclic, cut) with hostile direct-auxv values (AT_PHNUM 0 / 100000 / 2^64-1, AT_PHDR misaligned / unmapped / near 2^64); random direct auxv; size limit / sanitize / skip-unreferenced mixes; one world maps a file named /SYSVab (recorded finding K2). Required: the dump returns a value");
